@@ -4,6 +4,10 @@
     > parse <tokens>   →  < lex 0|1, then < ok <ast> + < wf 0|1 | < err
                            (`tokOk` on every token, model `parse`, and whether the tree satisfies `wf`)
     > lexstr <hex>     →  < str <length of the STRING token> | < err     (SH.Model.PromLex.lexStringTok on the bytes)
+    > lexnum|lexdur <hex> → < num <len> | dur <len> | err   (lexNumberOrDuration / lexDuration of SH.Model.PromLex)
+    > pdur <hex>       →  < secs <n>|X                 (parseDuration on a DURATION token's text)
+    > durtext <n>      →  < text <hex>                 (`%ds`)
+    > lexword <hex>    →  < word <len> <TOKEN>         (lexKeywordOrIdentifier + keyword table = classifyKind)
     > print <ast>      →  < toks <tokens>             (model `printExpr .fixed`, numbers/durations/strings reduced to
                                                        raw text / value exactly as the harness reduces the lexed real output)
 -/
@@ -208,6 +212,11 @@ partial def showArgs : Args → String
   | .cons e rest => " " ++ showExpr e ++ showArgs rest
 end
 
+def showNumTok : SH.PromLex.NumTok → String
+  | .num n => s!"num {n}"
+  | .dur n => s!"dur {n}"
+  | .err => "err"
+
 def step (_ : Unit) (toks : List String) : Unit × List String :=
   match toks with
   | "parse" :: l =>
@@ -227,6 +236,30 @@ def step (_ : Unit) (toks : List String) : Unit × List String :=
     | some bs => match SH.PromLex.lexStringTok (bs.map (·.toNat)) with
       | some (tok, _) => ((), ["str " ++ toString tok.length])
       | none => ((), ["err"])
+  | ["lexnum", hx] =>          -- lexNumberOrDuration on the bytes
+    match parseHex? hx with
+    | none => ((), ["bad-op"])
+    | some bs => ((), [showNumTok (SH.PromLex.lexNumOrDur (bs.map (·.toNat)))])
+  | ["lexdur", hx] =>          -- lexDuration (first token after `[`) on the bytes
+    match parseHex? hx with
+    | none => ((), ["bad-op"])
+    | some bs => ((), [showNumTok (SH.PromLex.lexDurationB (bs.map (·.toNat)))])
+  | ["pdur", hx] =>            -- parser.parseDuration on the text of a DURATION token
+    match parseHex? hx with
+    | none => ((), ["bad-op"])
+    | some bs => match SH.PromLex.parseDuration (bs.map (·.toNat)) with
+      | some n => ((), ["secs " ++ toString n])
+      | none => ((), ["secs X"])
+  | ["durtext", n] =>          -- the printer's `%ds`
+    match n.toNat? with
+    | some n => ((), ["text " ++ showHex ((SH.PromLex.printSeconds n).map UInt8.ofNat)])
+    | none => ((), ["bad-op"])
+  | ["lexword", hx] =>         -- lexKeywordOrIdentifier: length of the word and the token the keyword table makes of it
+    match parseHex? hx with
+    | none => ((), ["bad-op"])
+    | some bs =>
+      let w := (SH.PromLex.lexWord (bs.map (·.toNat))).1
+      ((), [s!"word {w.length} {kindTokName (classifyKind (String.ofList (w.map Char.ofNat)))}"])
   | "print" :: l =>
     match readExpr l with
     | some (e, []) => ((), ["toks " ++ showToks (printExpr .fixed e)])
